@@ -23,6 +23,7 @@ RULE = (
     "conditions, and at least one loaded free dof; distinct = sha1 of the case."
     ' dirichlet_neumann also draws prescribed values that cancel exactly, per-unknown values listed in any order and load magnitudes 2^-30..2^20; orphans_phasefield: damage problem of a phase-field simulation on a mesh with 1-3 orphan nodes vs the same mesh without (non-trivial = non-zero damage).'
     ' Round 8: newton_residual draws a hyperelastic block, one displacement increment of any size and maxIter 2..20 (non-trivial = non-zero increment; either Solve() refuses or the returned state must solve the assembled equations); beam_connections may prescribe a settlement on one joint node; prescribed_damage enumerates element type x AT1/AT2 x damage solver x with / without driving force x prescribed value.'
+    ' Round 9: lagrange cases may carry orphan nodes (constraints tie mesh nodes only); half of prescribed_damage names the damage problem by its plain name.'
 )
 ASSUMPTIONS = [
     "documented convention of the elimination solver: a dof constrained several times holds the sum of the entered values",
